@@ -322,4 +322,13 @@ pub proof fn isum_nonneg(n: int, f: spec_fn(int) -> real)
     if n > 0 { isum_nonneg(n - 1, f); }
 }
 
+
+pub proof fn isum_mono(a: int, b: int, f: spec_fn(int) -> real)
+    requires a <= b, forall|k: int| a <= k < b ==> #[trigger] f(k) >= 0real
+    ensures isum(a, f) <= isum(b, f)
+    decreases b - a
+{
+    if a < b { isum_mono(a, b - 1, f); if b <= 0 { } }
+}
+
 } // verus!
